@@ -69,6 +69,11 @@ def run_cli(cli, r, scen, text, lib_convert, workdir, idx):
         # (a value that begins with '-' is written --name=value: as a separate word the argument parser takes it for an option)
         argv += [nm + "=" + v] if ((r.random() < 0.4 and v != "") or v.startswith("-")) else [nm, v]
     stdin = None
+    if inmode != "inline" and r.random() < 0.25:
+        # a backslash followed by the letter n is two ordinary characters in a file and on the standard input (only the
+        # inline argument spells a line break that way): such a pair somewhere in the text (seed C19-A13)
+        cut = r.randrange(len(text) + 1)
+        text = text[:cut] + r.choice(["\\n", "a\\nb", "\\n\\n"]) + text[cut:]
     raw = text.encode("utf-8")
     if "bad_utf8" in fault:
         # input that is not text: a conversion cannot succeed
@@ -121,7 +126,7 @@ def run_cli(cli, r, scen, text, lib_convert, workdir, idx):
     ob = {"exit": p.returncode, "stdout_sha": sha(p.stdout), "stdout_len": len(p.stdout), "stderr_len": len(p.stderr),
           "file_exists": file_exists, "file_sha": file_sha, "pre_sha": pre_sha, "lib_sha": sha(lib), "lib_nl_sha": sha(lib + b"\n")}
     shutil.rmtree(d, ignore_errors=True)
-    return ob, {"argv": argv, "settings": st, "stdout_head": p.stdout[:200].decode("utf-8", "replace"),
+    return ob, {"argv": argv, "settings": st, "text_sent": text, "stdout_head": p.stdout[:200].decode("utf-8", "replace"),
                 "stderr": p.stderr[:200].decode("utf-8", "replace")}
 
 
